@@ -512,18 +512,14 @@ class FlowParser:
                 field_name=row.save_name, value=row.mainarg_value
             )
         elif row.type == "add_to_group":
-            return AddContactGroupAction(
-                groups=[self._get_or_create_group(row.mainarg_groups[0], row.obj_id)]
-            )
+            return AddContactGroupAction(groups=self._get_row_groups(row))
         elif row.type == "add_contact_urn":
             return AddContactURNAction(
                 path=row.mainarg_value,
                 scheme=row.urn_scheme or "tel",
             )
         elif row.type == "remove_from_group":
-            return RemoveContactGroupAction(
-                groups=[self._get_or_create_group(row.mainarg_groups[0], row.obj_id)]
-            )
+            return RemoveContactGroupAction(groups=self._get_row_groups(row))
         elif row.type == "save_flow_result":
             return SetRunResultAction(
                 row.save_name, row.mainarg_value, category=row.result_category
@@ -547,6 +543,14 @@ class FlowParser:
             return None
         else:
             LOGGER.critical(f"Row type {row.type} not implemented")
+
+    def _get_row_groups(self, row):
+        # obj_id is the UUID of the first group; any further groups are
+        # referenced by name only (blank entries are skipped).
+        names = row.mainarg_groups
+        return [self._get_or_create_group(names[0], row.obj_id)] + [
+            self._get_or_create_group(name) for name in names[1:] if name
+        ]
 
     def _get_or_create_group(self, name, uuid=None):
         # TODO: support lists of groups
